@@ -6,6 +6,8 @@
 // altered => an honest helper must fail / never finish; for table messages (TransferXY / TransferC)
 // and held rows that is required strictly, for all other shuffle traffic the safe disjunct
 // (abort, or unchanged multiset) is required.
+// Adaptive monitor (malicious variant): a rushing helper that forges the tag of an altered row with a MAC key it
+// has already been given (see `verif_c05_adaptive_key_attack`). Large-table monitor: one table of more than 2^20 rows.
 
 use std::{
     collections::BTreeMap,
@@ -22,10 +24,13 @@ use super::{
 };
 use crate::{
     ff::{
-        U128Conversions,
+        Gf32Bit, U128Conversions,
         boolean_array::{BA3, BA8, BA32, BA64, BA112},
     },
-    helpers::in_memory_config::DynStreamInterceptor,
+    helpers::{
+        HelperIdentity,
+        in_memory_config::{DynStreamInterceptor, InspectContext},
+    },
     protocol::ipa_prf::shuffle::{MaliciousShuffleable, ShardedShuffle, Shuffleable},
     report::hybrid::{AggregateableHybridReport, IndistinguishableHybridReport},
     secret_sharing::replicated::semi_honest::AdditiveShare,
@@ -164,7 +169,8 @@ fn run_s<const S: usize, R: Row>(case: &ShufCase, interceptor: Option<DynStreamI
     let slots: Slots = Arc::new(Mutex::new(vec![None; S * 3]));
     let b = body::<S, R>(case.clone(), interceptor, Arc::clone(&slots));
     let (quiescent, wall_timeout) = if case.mt {
-        (false, vlib::run_mt(4, Duration::from_secs(600), b).is_none())
+        // wall-clock guard only (=> inconclusive); scaled for the very large single-table case
+        (false, vlib::run_mt(4, Duration::from_secs(600.max(case.values.len() as u64 / 300)), b).is_none())
     } else {
         (matches!(vlib::run_paused(Duration::from_secs(60), b), Paused::Quiescent), false)
     };
@@ -475,6 +481,482 @@ fn verif_c05_faults() {
         fault_sweep::<AdditiveShare<BA32>>(&mut rec, &env, 2, 33, 3, &mut idx);
         fault_sweep::<AggregateableHybridReport<BA8, BA3>>(&mut rec, &env, 3, 20, 1, &mut idx);
         fault_sweep::<IndistinguishableHybridReport<BA8, BA3>>(&mut rec, &env, 4, 40, 1, &mut idx);
+    }
+    rec.finish();
+}
+
+// ---------------------------------------------------------------------------------------------
+// adaptive (rushing) adversary on the malicious shuffle
+// ---------------------------------------------------------------------------------------------
+//
+// The per-row MAC (tag = sum_j k_j * w_j over GF(2^32), w_j = 32-bit words of the row) only protects a table if
+// the keys k_j are still secret when the table is sent: a helper that knows k_j can add `delta` to word j of a row
+// and `k_j * delta` to its tag, and no verification hash changes. The adversary below is one helper role (all of its
+// shards) that follows the protocol but may rewrite the messages it sends. It works on the wire only:
+//   * its own two additive shares of every key are the bytes it sends on the RevealMACKey step. They are taken from
+//     an honest reference run with the same world seed (PRSS, hence the shares, are identical in both runs; this is
+//     re-checked on the attack run's own traffic),
+//   * the third share is only ever taken from RevealMACKey messages that were delivered *to the attacker in the
+//     attack run itself*, on any of its shards, before the table chunk it wants to alter is handed to the receiver.
+// "Key known at that time" therefore means: at the moment a chunk of the attacker's table is pulled by its receiver
+// (the in-memory transport runs the interceptor when the receiver asks for the chunk; a real sender could have held
+// the chunk back until that moment, the honest receiver only waits), the attacker's own protocol code has already
+// received a RevealMACKey message from a peer. Everything the adversary does is hence possible for a real helper
+// (sound); it does not model a helper that asks for the reveal messages *earlier* than its honest code would.
+//
+// On the unmodified tree the key is never complete when X2 (H1) or Y1 (H2) leave, but it often is while C1 (H2) / C2 (H3)
+// are still in flight: H1 opens its shares as soon as it has the Cardinality word (sent before the C exchange), and a
+// shard without rows or one that is done with its C exchange opens while other shards still send (open known findings
+// C05-mac-key-open-before-c1-* / -c2-*; the `path` fact of the signature tells these ways apart).
+
+/// (attacker role, table, gate pattern of the step that carries the table, receiving role)
+const ADV_TABLES: [(u8, &str, &str, u8); 4] =
+    [(0, "x2", "transfer_x_y", 1), (1, "y1", "transfer_x_y", 2), (1, "c1", "transfer_c", 2), (2, "c2", "transfer_c", 1)];
+
+#[derive(Clone, Debug)]
+struct AdvPlan {
+    attacker: u8,
+    table: &'static str,
+    gate_pat: &'static str,
+    dst: u8,
+    /// bytes of one row-with-tag on the wire, offset of the 4-byte tag in it
+    msg: usize,
+    tag_off: usize,
+    /// index of the altered 32-bit word of the row, value added to it
+    word: usize,
+    delta: u32,
+    pick: u64,
+    /// the attacker's own key shares: what it sends to its right peer (its left shares) / to its left peer
+    own_left: Vec<u8>,
+    own_right: Vec<u8>,
+    /// reference-run value of the share the attacker is sent (used only to check that the two runs agree)
+    ref_missing: Vec<u8>,
+}
+
+#[derive(Clone, Debug)]
+struct AdvApplied {
+    seq: u64,
+    shard: u32,
+    row_in_channel: usize,
+    share_from: u8,
+    share_shard: u32,
+    share_seq: u64,
+}
+
+#[derive(Default)]
+struct AdvState {
+    plan: Option<AdvPlan>,
+    /// running number of MPC chunks that passed the interceptor
+    seq: u64,
+    /// RevealMACKey bytes per (src, dst, shard): (seq of the first chunk, bytes so far)
+    reveal: BTreeMap<(u8, u8, u32), (u64, Vec<u8>)>,
+    /// number of TransferC chunks (either direction) seen on the shard when the first RevealMACKey chunk of that channel passed
+    c_chunks_before_reveal: BTreeMap<(u8, u8, u32), u32>,
+    c_chunks: BTreeMap<u32, u32>,
+    /// Cardinality word H2 -> H1 per shard: (seq, |C| on that shard)
+    cardinality: BTreeMap<u32, (u64, u64)>,
+    table_off: BTreeMap<u32, usize>,
+    /// (seq, shard, len, key known when the chunk passed)
+    table_chunks: Vec<(u64, u32, usize, bool)>,
+    applied: Option<AdvApplied>,
+    known_but_no_full_row: u32,
+    share_mismatch: bool,
+}
+
+fn role_no(h: HelperIdentity) -> u8 {
+    if h == HelperIdentity::ONE {
+        0
+    } else if h == HelperIdentity::TWO {
+        1
+    } else {
+        2
+    }
+}
+
+fn gf32_mul(a: u32, b: u32) -> u32 {
+    (Gf32Bit::truncate_from(u128::from(a)) * Gf32Bit::truncate_from(u128::from(b))).as_u128() as u32
+}
+
+fn le32(b: &[u8]) -> u32 {
+    u32::from_le_bytes([b[0], b[1], b[2], b[3]])
+}
+
+fn adv_tap(state: Arc<Mutex<AdvState>>) -> DynStreamInterceptor {
+    Arc::new(move |ctx: &InspectContext, data: &mut Vec<u8>| {
+        let InspectContext::MpcMessage { shard, source, dest, gate } = ctx else { return };
+        let mut guard = state.lock().unwrap_or_else(|e| e.into_inner());
+        let st = &mut *guard;
+        st.seq += 1;
+        let seq = st.seq;
+        let (src, dst) = (role_no(*source), role_no(*dest));
+        let shard = shard.map(u32::from).unwrap_or(0);
+        let gate = gate.as_ref();
+        if gate.contains("reveal_m_a_c_key") {
+            let c = st.c_chunks.get(&shard).copied().unwrap_or(0);
+            st.c_chunks_before_reveal.entry((src, dst, shard)).or_insert(c);
+            st.reveal.entry((src, dst, shard)).or_insert_with(|| (seq, Vec::new())).1.extend_from_slice(data);
+            return;
+        }
+        if gate.contains("cardinality") && data.len() == 8 {
+            st.cardinality.entry(shard).or_insert((seq, u64::from_le_bytes(data[..8].try_into().unwrap())));
+        }
+        if gate.contains("transfer_c") {
+            *st.c_chunks.entry(shard).or_insert(0) += 1;
+        }
+        let Some(plan) = st.plan.as_ref() else { return };
+        if src != plan.attacker || dst != plan.dst || !gate.contains(plan.gate_pat) {
+            return;
+        }
+        // a chunk of the attacker's table is being handed to its receiver
+        let need = 4 * (plan.word + 1);
+        let share = st
+            .reveal
+            .iter()
+            .filter(|((s, d, _), (_, v))| *d == plan.attacker && *s != plan.attacker && v.len() >= need)
+            .min_by_key(|(_, (sq, _))| *sq)
+            .map(|((s, _, sh), (sq, v))| (*s, *sh, *sq, v[need - 4..need].to_vec()));
+        st.table_chunks.push((seq, shard, data.len(), share.is_some()));
+        let off = st.table_off.entry(shard).or_insert(0);
+        let start = *off;
+        *off += data.len();
+        let Some((share_from, share_shard, share_seq, missing)) = share else { return };
+        if st.applied.is_some() || st.share_mismatch {
+            return;
+        }
+        if missing[..] != plan.ref_missing[need - 4..need] {
+            st.share_mismatch = true;
+            return;
+        }
+        let pad = (plan.msg - start % plan.msg) % plan.msg;
+        let rows = data.len().saturating_sub(pad) / plan.msg;
+        if rows == 0 {
+            st.known_but_no_full_row += 1;
+            return;
+        }
+        let row = pad + (plan.pick % rows as u64) as usize * plan.msg;
+        let key = le32(&plan.own_left[need - 4..need]) ^ le32(&plan.own_right[need - 4..need]) ^ le32(&missing);
+        let fix = gf32_mul(key, plan.delta).to_le_bytes();
+        let d = plan.delta.to_le_bytes();
+        for b in 0..4 {
+            if 4 * plan.word + b < plan.tag_off {
+                data[row + 4 * plan.word + b] ^= d[b];
+            }
+            data[row + plan.tag_off + b] ^= fix[b];
+        }
+        st.applied = Some(AdvApplied { seq, shard, row_in_channel: (start + row) / plan.msg, share_from, share_shard, share_seq });
+    })
+}
+
+fn run_adv<R: Row>(case: &ShufCase, plan: Option<AdvPlan>) -> (ShufRun, AdvState) {
+    let st = Arc::new(Mutex::new(AdvState { plan, ..Default::default() }));
+    let run = run::<R>(case, Some(adv_tap(Arc::clone(&st))));
+    let st = std::mem::take(&mut *st.lock().unwrap_or_else(|e| e.into_inner()));
+    (run, st)
+}
+
+/// The attacker's view of the key shares in the reference run: (own left shares, own right shares, share it is sent).
+fn ref_key_view(st: &AdvState, attacker: u8, shards: usize, nkeys: usize) -> Result<(Vec<u8>, Vec<u8>, Vec<u8>), String> {
+    let (right, left) = ((attacker + 1) % 3, (attacker + 2) % 3);
+    let get = |s: u8, d: u8, sh: u32| {
+        st.reveal.get(&(s, d, sh)).map(|x| x.1.clone()).ok_or_else(|| format!("no RevealMACKey traffic H{}->H{} on shard {sh}", s + 1, d + 1))
+    };
+    let mut out: Option<(Vec<u8>, Vec<u8>, Vec<u8>)> = None;
+    for sh in 0..shards as u32 {
+        let (own_left, own_right) = (get(attacker, right, sh)?, get(attacker, left, sh)?);
+        let (from_right, from_left) = (get(right, attacker, sh)?, get(left, attacker, sh)?);
+        if [&own_left, &own_right, &from_right, &from_left].iter().any(|v| v.len() != 4 * nkeys) {
+            return Err(format!("RevealMACKey traffic on shard {sh} is not {nkeys} keys of 4 bytes"));
+        }
+        if from_right != from_left {
+            return Err(format!("the two peers of H{} opened different shares on shard {sh}", attacker + 1));
+        }
+        let t = (own_left, own_right, from_right);
+        match &out {
+            None => out = Some(t),
+            Some(o) if *o != t => return Err(format!("key shares of H{} differ between shards", attacker + 1)),
+            _ => {}
+        }
+    }
+    out.ok_or_else(|| "no shard".to_string())
+}
+
+fn xor3(a: &[u8], b: &[u8], c: &[u8]) -> Vec<u8> {
+    a.iter().zip(b).zip(c).map(|((x, y), z)| x ^ y ^ z).collect()
+}
+
+fn adaptive_config<R: Row>(rec: &mut Recorder, env: &vlib::Env, idx: usize, n: usize, shards: usize) {
+    let mut r = VRng::new(env.seed ^ 0xc05ad, idx as u64);
+    let values = gen_values::<R>(n, &mut r, false);
+    let (assign, dname) = assign(idx / 3, n, shards, &mut r);
+    let case = ShufCase { values: values.clone(), assign, shards, malicious: true,
+        world_seed: env.seed.wrapping_mul(7919) + idx as u64, held_row_fault: None, mt: false };
+    let tag_off = <R as MaliciousShuffleable>::TAG_OFFSET;
+    let (msg, nkeys) = (tag_off + 4, tag_off.div_ceil(4));
+    rec.seen("adaptive_classes", format!("{}/S{shards}/n{n}/{dname}", R::NAME));
+
+    // honest reference run: what every helper sends on the RevealMACKey step
+    let (honest, href) = run_adv::<R>(&case, None);
+    rec.count("adaptive_reference_runs");
+    let ok = honest.outs.iter().all(|o| o.iter().all(Out::is_ok))
+        && reconstruct(&honest, None).map(sorted).as_ref() == Ok(&sorted(values.clone()));
+    if !ok {
+        rec.inconclusive(format!("honest pass of adaptive config {idx} ({}) failed; decided by verif_c05_honest", R::NAME));
+        return;
+    }
+    let views: Vec<_> = (0..3u8).map(|a| ref_key_view(&href, a, shards, nkeys)).collect();
+    if let Some(Err(e)) = views.iter().find(|v| v.is_err()) {
+        rec.inconclusive(format!("adaptive config {idx}: key-reveal traffic of the reference run not understood: {e}"));
+        return;
+    }
+    let views: Vec<_> = views.into_iter().map(Result::unwrap).collect();
+    let keys: Vec<Vec<u8>> = views.iter().map(|(a, b, c)| xor3(a, b, c)).collect();
+    if keys[0] != keys[1] || keys[1] != keys[2] {
+        rec.inconclusive(format!("adaptive config {idx}: the three helpers' views of the reference run give different MAC keys"));
+        return;
+    }
+
+    for (k, &(attacker, table, gate_pat, dst)) in ADV_TABLES.iter().enumerate() {
+        let words = R::ID_BITS.div_ceil(32) as u64; // only words that carry row content
+        let word = r.below(words) as usize;
+        let vb = (R::ID_BITS - 32 * word as u32).min(32);
+        let m = if vb == 32 { u32::MAX } else { (1u32 << vb) - 1 };
+        let delta = match (r.next() as u32) & m {
+            0 => 1,
+            d => d,
+        };
+        let (own_left, own_right, ref_missing) = views[attacker as usize].clone();
+        let plan = AdvPlan { attacker, table, gate_pat, dst, msg, tag_off, word, delta, pick: r.next(), own_left, own_right, ref_missing };
+        let (run, st) = run_adv::<R>(&case, Some(plan.clone()));
+        rec.eval();
+        rec.count("adaptive_attack_runs");
+        let who = format!("H{}/{table}", attacker + 1);
+        // the simulation is only sound if the attacker's own shares are those of the reference run
+        let (right, left) = ((attacker + 1) % 3, (attacker + 2) % 3);
+        let own_differs = st.reveal.iter().any(|((s, d, _), (_, v))| {
+            *s == attacker && ((*d == right && !plan.own_left.starts_with(v)) || (*d == left && !plan.own_right.starts_with(v)))
+        });
+        if own_differs || st.share_mismatch {
+            rec.inconclusive(format!("adaptive config {idx} {who}: key shares differ between the reference run and the attack run (same world seed)"));
+            continue;
+        }
+        if st.table_chunks.is_empty() {
+            rec.count("adaptive_no_table_chunk_observed");
+            continue;
+        }
+        rec.add("adaptive_table_chunks_observed", st.table_chunks.len() as u64);
+        let yn = |b: bool| if b { "yes" } else { "no" };
+        let (first, last) = (st.table_chunks[0].3, st.table_chunks[st.table_chunks.len() - 1].3);
+        rec.count(&format!("adaptive_key_known_at_first_table_chunk/{who}/{}", yn(first)));
+        rec.count(&format!("adaptive_key_known_at_last_table_chunk/{who}/{}", yn(last)));
+        let first_reveal_to_attacker = st.reveal.iter().filter(|((s, d, _), _)| *d == attacker && *s != attacker).map(|(_, (sq, _))| *sq).min();
+        let order = json!({"first_reveal_chunk_delivered_to_attacker_seq": first_reveal_to_attacker,
+                           "table_chunks_seq_shard_len_known": st.table_chunks.iter().take(12).collect::<Vec<_>>(), "chunks_total": st.seq});
+        if rec.want_sample() && (idx + k) % 7 == 0 {
+            rec.sample(json!({"type": R::NAME, "rows": n, "shards": shards, "attacker": who, "order": order, "applied": st.applied.is_some()}));
+        }
+        let Some(ap) = st.applied.clone() else {
+            if st.known_but_no_full_row > 0 {
+                rec.count("adaptive_key_known_but_no_whole_row_in_chunk");
+            } else {
+                rec.count("adaptive_attack_key_not_yet_known");
+            }
+            rec.distinct(&(R::NAME, shards, n, who.as_str(), "not_known"));
+            continue;
+        };
+        // How the attacker came to hold the complete key (observable facts of this run):
+        //  * the share came from H1, which takes no part in the C exchange, after / before H2's Cardinality word reached it,
+        //  * the share came from the other C-exchange party on a shard whose |C| is 0 / that had / had not seen C traffic.
+        let path = if ap.share_from == 0 {
+            match st.cardinality.get(&ap.share_shard) {
+                Some((sq, _)) if *sq < ap.share_seq => "h1_opened_after_cardinality",
+                _ => "h1_opened_before_cardinality",
+            }
+        } else if matches!(st.cardinality.get(&ap.share_shard), Some((_, 0))) {
+            "peer_shard_without_rows_opened"
+        } else if st.c_chunks_before_reveal.get(&(ap.share_from, attacker, ap.share_shard)).copied().unwrap_or(0) > 0 {
+            "peer_shard_opened_after_c_traffic"
+        } else {
+            "peer_shard_opened_before_c_traffic"
+        };
+        rec.count("adaptive_attack_applied");
+        rec.count(&format!("adaptive_attack_applied/{who}"));
+        rec.count(&format!("adaptive_key_complete_by/{who}/{path}"));
+        let corrupt = attacker as usize;
+        let honest_ok = run.outs.iter().all(|o| (0..3).filter(|h| *h != corrupt).all(|h| o[h].is_ok()));
+        let witness = || json!({"case": idx, "shuffle_case": case.to_json(R::NAME), "attacker": who, "word": word, "delta": format!("{delta:x}"),
+                                "applied": {"seq": ap.seq, "shard": ap.shard, "row_in_channel": ap.row_in_channel,
+                                            "third_share_from": format!("H{} shard {} (chunk seq {})", ap.share_from + 1, ap.share_shard, ap.share_seq)},
+                                "key_known_at_first_table_chunk": first, "order": order, "path": path,
+                                "cardinality_seq_and_value_per_shard": st.cardinality, "outs": outs_json(&run)});
+        if !honest_ok {
+            rec.count("adaptive_attack_detected");
+            rec.distinct(&(R::NAME, shards, n, who.as_str(), "detected"));
+            continue;
+        }
+        // share_from: the helper whose RevealMACKey message completed the attacker's key before the table chunk left
+        let sig = |kind: &str, unchanged: Option<bool>| json!({"kind": kind, "table": table, "attacker": format!("H{}", attacker + 1), "type": R::NAME,
+                                                                "share_from": format!("H{}", ap.share_from + 1), "path": path,
+                                                                "multi_shard": shards > 1, "multiset_unchanged": unchanged});
+        match reconstruct(&run, Some(corrupt)) {
+            Ok(rows) => {
+                let unchanged = sorted(rows.clone()) == sorted(values.clone());
+                // exactly one row moved by delta in the chosen word?
+                let (mut gone, mut new): (Vec<u128>, Vec<u128>) = (sorted(values.clone()), sorted(rows));
+                let (g2, n2) = (gone.clone(), new.clone());
+                gone.retain(|v| n2.binary_search(v).is_err());
+                new.retain(|v| g2.binary_search(v).is_err());
+                rec.violation(
+                    "a helper that had already been given the MAC key altered a row of a table it sent, repaired the tag, and the honest helpers returned rows",
+                    sig("adaptive_tamper_accepted", Some(unchanged)),
+                    json!({"w": witness(), "rows_gone": gone.iter().take(4).map(|v| format!("{v:x}")).collect::<Vec<_>>(),
+                           "rows_new": new.iter().take(4).map(|v| format!("{v:x}")).collect::<Vec<_>>()}),
+                );
+            }
+            Err(e) => rec.violation(
+                "a helper that had already been given the MAC key altered a row of a table it sent; the honest helpers returned inconsistent rows",
+                sig("adaptive_tamper_accepted_inconsistent", None),
+                json!({"w": witness(), "detail": e}),
+            ),
+        }
+    }
+}
+
+fn c05_replay_case() -> Option<usize> {
+    let p = vlib::env().replay?;
+    let w: Value = serde_json::from_str(&std::fs::read_to_string(p).ok()?).ok()?;
+    w["witness"]["case"].as_u64().or_else(|| w["witness"]["w"]["case"].as_u64()).map(|v| v as usize)
+}
+
+#[test]
+fn verif_c05_adaptive_key_attack() {
+    let env = vlib::env();
+    let mut rec = Recorder::new("C05", "verif_c05_adaptive_key_attack");
+    let only = c05_replay_case();
+    if env.replay.is_some() && only.is_none() {
+        rec.finish();
+        return;
+    }
+    // sizes of the existing tests (2, 10, 100) plus sparse worlds (fewer rows than shards: some shard skips the C
+    // exchange and reaches the key opening early) and tables of more than one transport chunk
+    let sizes: &[usize] = if env.thorough { &[1, 2, 3, 5, 10, 33, 100, 300, 700, 2000] } else { &[1, 2, 3, 5, 10, 33, 100, 300] };
+    let mut idx = 0usize;
+    for ti in 0..4 {
+        for shards in 1..=3usize {
+            for &n in sizes {
+                for _rep in 0..env.pick(2, 4) {
+                    idx += 1;
+                    if !env.mine(idx) || only.is_some_and(|c| c != idx) {
+                        continue;
+                    }
+                    match ti {
+                        0 => adaptive_config::<AdditiveShare<BA32>>(&mut rec, &env, idx, n, shards),
+                        1 => adaptive_config::<AdditiveShare<BA64>>(&mut rec, &env, idx, n, shards),
+                        2 => adaptive_config::<IndistinguishableHybridReport<BA8, BA3>>(&mut rec, &env, idx, n, shards),
+                        _ => adaptive_config::<AggregateableHybridReport<BA8, BA3>>(&mut rec, &env, idx, n, shards),
+                    }
+                }
+            }
+        }
+    }
+    rec.finish();
+}
+
+// ---------------------------------------------------------------------------------------------
+// one table of more than 2^20 rows on a single shard
+// ---------------------------------------------------------------------------------------------
+
+type LargeRow = AdditiveShare<BA32>; // the narrowest row type `ShardedShuffle::sharded_shuffle` accepts
+
+fn large_table_input(env: &vlib::Env, case_no: usize, n: usize, malicious: bool) -> ShufCase {
+    // distinct values: multiplication by an odd constant is a bijection on 32-bit integers
+    let values: Vec<u128> = (0..n as u64).map(|i| u128::from((i as u32).wrapping_mul(2_654_435_761))).collect();
+    ShufCase { values, assign: vec![0; n], shards: 1, malicious,
+        // paused-clock executor: "never finishes" is decided by quiescence, not by wall time
+        world_seed: env.seed.wrapping_mul(31) + 5 + case_no as u64, held_row_fault: None, mt: false }
+}
+
+fn large_table_run(case: &ShufCase) -> (ShufRun, u64) {
+    let t0 = std::time::Instant::now();
+    let run = run::<LargeRow>(case, None);
+    (run, t0.elapsed().as_secs())
+}
+
+fn large_table_eval(rec: &mut Recorder, case_no: usize, case: &ShufCase, run: (ShufRun, u64)) {
+    type R = LargeRow;
+    let (n, malicious) = (case.values.len(), case.malicious);
+    let (run, wall_s) = run;
+    rec.eval();
+    let mode = if malicious { "mal" } else { "sh" };
+    rec.add(&format!("large_table_wall_s_{mode}"), wall_s);
+    let sig_base = json!({"type": <R as Row>::NAME, "malicious": malicious, "multi_shard": false, "large_table": true});
+    let w = |extra: Value| json!({"case": case_no, "rows": n, "type": <R as Row>::NAME, "malicious": malicious, "shards": 1,
+                                  "world_seed": case.world_seed, "outs": outs_json(&run), "quiescent_without_result": run.quiescent, "detail": extra});
+    if !run.outs.iter().all(|o| o.iter().all(Out::is_ok)) {
+        rec.violation(
+            "honest shuffle did not return rows on every helper and shard",
+            json!({"kind": "honest_no_result", "base": sig_base, "rows_lt_shards": false, "empty": false}),
+            w(json!(null)),
+        );
+        return;
+    }
+    match reconstruct(&run, None) {
+        Ok(rows) => {
+            let (a, b) = (sorted(rows), sorted(case.values.clone()));
+            if a == b {
+                rec.count("multiset_equal");
+                rec.count(&format!("large_table_multiset_equal_{mode}"));
+                rec.add("rows_checked", n as u64);
+                rec.add("large_table_rows_checked", n as u64);
+                rec.distinct(&("large", <R as Row>::NAME, malicious, n));
+                if rec.want_sample() {
+                    rec.sample(json!({"type": <R as Row>::NAME, "rows": n, "shards": 1, "malicious": malicious, "large_table": true}));
+                }
+            } else {
+                let lost = b.iter().filter(|v| a.binary_search(v).is_err()).count();
+                rec.violation(
+                    "shuffle output is not a permutation of its input",
+                    json!({"kind": "multiset_differs", "base": sig_base, "len_in": n, "len_out_equal": a.len() == n}),
+                    w(json!({"len_out": a.len(), "input_rows_missing_from_output": lost})),
+                );
+            }
+        }
+        Err(e) => rec.violation(
+            "shuffle output rows are not consistent replicated sharings",
+            json!({"kind": "inconsistent_output", "base": sig_base}),
+            w(json!(e)),
+        ),
+    }
+}
+
+/// Thorough tier only, single process: one table well beyond 2^20 rows (1,100,003, semi-honest) and one just beyond
+/// (2^20 + 7, malicious) on one shard; neither count is a multiple of a chunk size.
+#[test]
+fn verif_c05_large_table_x1() {
+    let env = vlib::env();
+    let mut rec = Recorder::new("C05", "verif_c05_large_table_x1");
+    if !env.thorough {
+        rec.count("large_table_skipped_in_quick_tier");
+        rec.finish();
+        return;
+    }
+    let only = c05_replay_case();
+    const N: [usize; 2] = [1_100_003, (1 << 20) + 7];
+    // the semi-honest and the malicious shuffle run side by side (each on its own multi-thread runtime)
+    let cases: Vec<(usize, ShufCase)> = [false, true]
+        .into_iter()
+        .enumerate()
+        .filter(|(case_no, _)| !only.is_some_and(|c| c != *case_no))
+        .map(|(case_no, malicious)| (case_no, large_table_input(&env, case_no, N[case_no], malicious)))
+        .collect();
+    let runs: Vec<_> = std::thread::scope(|sc| {
+        let hs: Vec<_> = cases.iter().map(|(_, case)| sc.spawn(move || vlib::catch(|| large_table_run(case)))).collect();
+        hs.into_iter().map(|h| h.join().unwrap_or_else(|_| Err("thread panicked".into()))).collect()
+    });
+    for ((case_no, case), run) in cases.iter().zip(runs) {
+        match run {
+            Ok(run) => large_table_eval(&mut rec, *case_no, case, run),
+            Err(p) => rec.inconclusive(format!("large table case {case_no}: the harness panicked outside the code under test: {p}")),
+        }
     }
     rec.finish();
 }
